@@ -255,15 +255,18 @@ func CheckC14(opt C14Options) int {
 		flavour string
 		backend string
 		units   []Unit
+		foreign int // index of a unit that compiles ANOTHER project (process history only, not judged)
 	}
 	var cases []caseT
 	for pi := 0; pi < nProj; pi++ {
 		r := core.Sub(opt.Seed, "c14", "proj", pi)
 		fl := "ok"
-		switch x := r.Intn(10); {
-		case x < 5:
+		switch x := r.Intn(20); {
+		case x < 7:
 			fl = "ok"
-		case x < 8:
+		case x < 11:
+			fl = "plain" // compiles on the wasm back end too
+		case x < 17:
 			fl = "errors"
 		default:
 			fl = "cycle"
@@ -278,6 +281,11 @@ func CheckC14(opt C14Options) int {
 			// history: the very same compile again in the same process
 			c.units = append(c.units, mk(Canonical()))
 			c.units = append(c.units, mk(Plan{Strategy: "lifo", MapMode: "reverse"}))
+			// history: a different project compiled in between (what a playground or a
+			// test binary does); its own output is not judged here
+			rf := core.Sub(opt.Seed, "c14", "foreign", pi, be)
+			c.foreign = len(c.units)
+			c.units = append(c.units, Unit{Project: GenProject(rf, core.Pick(rf, []string{"ok", "errors"})), Backend: be, Plan: RandomPlan(rf, 0), KeepGen: true, Tools: "stub"})
 			// map order alone, schedule alone, then both
 			rs := core.Sub(opt.Seed, "c14", "plans", pi, be)
 			mo := Canonical()
@@ -314,7 +322,7 @@ func CheckC14(opt C14Options) int {
 		var refObs *Observable
 		var refFiles map[string][]byte
 		outs := RunBatch(b, c.units, func(i int, rr *RunResult, k int) []Issue {
-			if i == 0 {
+			if i == 0 || i == c.foreign {
 				return nil
 			}
 			if refObs == nil {
@@ -363,7 +371,7 @@ func CheckC14(opt C14Options) int {
 				st.sigs[o.Sim.ConflictSig] = true
 				st.traces[o.Sim.TraceHash] = true
 			}
-			if i == 0 {
+			if i == 0 || i == c.foreign {
 				continue
 			}
 			for _, is := range o.Issues {
